@@ -104,7 +104,7 @@ cPivotGrowth(int ncols, SuperMatrix *A, int *perm_c,
 		maxuj = SUPERLU_MAX( maxuj, c_abs1( &Uval[i]) );
 	    
 	    /* Supernode */
-	    for (i = 0; i < nz_in_U; ++i)
+	    for (i = 0; i < nz_in_U && i < nsupr; ++i)
 		maxuj = SUPERLU_MAX( maxuj, c_abs1( &luval[i]) );
 
 	    ++nz_in_U;
